@@ -134,6 +134,12 @@ _W = {}
 
 
 def _worker_init(mir_files, crate_dirs, check_module):
+    try:
+        import ctypes
+        import signal
+        ctypes.CDLL('libc.so.6').prctl(1, signal.SIGKILL)      # PR_SET_PDEATHSIG: die with the driver
+    except Exception:
+        pass
     prog = Program(loader.REPO)
     for f, d in zip(mir_files, crate_dirs):
         prog.add_mir(open(f).read(), d)
@@ -144,10 +150,15 @@ def _worker_init(mir_files, crate_dirs, check_module):
 
 def _worker_run(job):
     t0 = time.time()
+    log = os.environ.get('VERIF_JOBLOG')
+    if log:
+        open(log, 'a').write('START %s\n' % ({k: v for k, v in job.items() if not str(k).startswith('files')},))
     try:
         res = _W['check'].run_job(_W['prog'], job)
         res['wall_s'] = time.time() - t0
         res['job'] = job
+        if log:
+            open(log, 'a').write('DONE %.1fs %s\n' % (time.time() - t0, {k: v for k, v in job.items() if not str(k).startswith('files')}))
         return res
     except ExecError as e:
         return {'job': job, 'inconclusive': 'encoder incomplete: %s' % e, 'trace': traceback.format_exc()[-1500:]}
